@@ -160,8 +160,15 @@ impl<'a> Interp<'a> {
         }
     }
 
-    /// others (B or M) whose address lies in the closed range of block `serial`, excluding `me`
+    /// others (B or M) relative to the block `serial`, excluding `me`: (handles whose address lies in
+    /// the block's closed range, non-empty handles whose address lies in its half-open range).
+    /// Address tests instead of per-handle block attribution keep this sound in packed mode, where a
+    /// one-past-the-end address is also the start of the next block (over-counting `any` only makes
+    /// the oracle assert less).
     fn others_in_block(&self, me: usize, serial: u64) -> (usize, usize) {
+        let blk = self.infos.iter().filter_map(|h| h.blk).find(|b| b.serial == serial);
+        let Some(b) = blk else { return (0, 0) };
+        let (lo, hi) = (b.ptr, b.ptr + b.size);
         let mut any = 0;
         let mut nonempty = 0;
         for j in 0..NSLOT {
@@ -170,13 +177,11 @@ impl<'a> Interp<'a> {
             }
             let o = &self.infos[j];
             if o.kind == 1 || o.kind == 2 {
-                if let Some(b) = o.blk {
-                    if b.serial == serial {
-                        any += 1;
-                        if o.len > 0 {
-                            nonempty += 1;
-                        }
-                    }
+                if o.ptr >= lo && o.ptr <= hi {
+                    any += 1;
+                }
+                if o.len > 0 && o.ptr >= lo && o.ptr < hi {
+                    nonempty += 1;
                 }
             }
         }
@@ -420,7 +425,9 @@ impl<'a> Interp<'a> {
                 continue;
             }
             let mut was_multi = false;
-            if let Some(b) = h.blk {
+            // packed mode: the block of an empty handle at a block boundary is ambiguous: leave it open
+            let ambiguous = h.len == 0 && oalloc::packed();
+            if let (Some(b), false) = (h.blk, ambiguous) {
                 let (any, nonempty) = self.others_in_block(i, b.serial);
                 if nonempty > 0 {
                     must_false = true;
